@@ -34,7 +34,7 @@ META = {
                "n_warm_up_iter beyond the bound; custom stagers",
     "stubs": ["builtin int in mici.stagers applied to float x symbolic-int: exact integer product for dyadic multipliers, fresh integer "
               "under the BVFP lemma for 0.15 n and 0.1 n"],
-    "assumptions": ["window sizes >= 1, multiplier >= 1 (documented domain)"],
+    "assumptions": ["slow window size >= 1, fast stage sizes >= 0, multiplier >= 1 (documented domain)"],
 }
 
 
@@ -138,7 +138,7 @@ def case_windowed(rec, mult, nmax):
     rec.encoded(ST.WindowedWarmUpStager.stages, ST.WindowedWarmUpStager.__init__)
     nw, nm = z3.Int("n_warm"), z3.Int("n_main")
     a0, a1, a2 = z3.Int("w_slow"), z3.Int("w_fast0"), z3.Int("w_fast1")
-    BASE = [nw >= 0, nw <= nmax, nm >= 0, a0 >= 1, a1 >= 1, a2 >= 1, a0 <= 100, a1 <= 100, a2 <= 100]
+    BASE = [nw >= 0, nw <= nmax, nm >= 0, a0 >= 1, a1 >= 0, a2 >= 0, a0 <= 100, a1 <= 100, a2 <= 100]
     fast, slow = Ad(True), Ad(False)
     adapters = {"t": [fast, slow]}
 
